@@ -129,6 +129,20 @@ func main() {
 	bd, del := open(base+"/del", 0, 2, &seqd)
 	idx.SetDeleteMergeSet(del)
 	must(del.LoadDeletedTSIDs())
+	// the background merges of the reopened table must be over: a part that is being merged is left alone by the purge (that
+	// situation is the business of cmd/c13purge's skipped-part scenario), and the dump must be the purge's input
+	settle := 1500
+	if ms := os.Getenv("C13ITEMS_SETTLE_MS"); ms != "" {
+		fmt.Sscan(ms, &settle)
+	}
+	for last, stable := -1, 0; stable < 3; {
+		time.Sleep(time.Duration(settle/3) * time.Millisecond)
+		if n := idx.VerifC13Table().VerifC13PartCount(); n == last {
+			stable++
+		} else {
+			last, stable = n, 0
+		}
+	}
 	before := idx.VerifC13Table().VerifC13PartItems()
 	// the drops: a few random series, the newest one (last id of its merged rows) and one in the middle
 	dropped := map[int]bool{n - 1: true, n / 2: true}
@@ -148,8 +162,50 @@ func main() {
 		must(del.WriteDeleteTsids(ids))
 		delIDs = append(delIDs, ids...)
 	}
+	if os.Getenv("C13ITEMS_DELFLUSH") != "" {
+		del.DebugFlush() // the dropped ids reach a part of the deleted-series table (what its periodic flush does within seconds)
+	}
 	must(b.DropSeries()) // the purge task
 	after := idx.VerifC13Table().VerifC13PartItems()
+	if os.Getenv("C13ITEMS_DEBUG") != "" {
+		// where are the pairs a moment later, and after a reopen?
+		time.Sleep(3 * time.Second)
+		later := idx.VerifC13Table().VerifC13PartItems()
+		must(b.Close())
+		must(bd.Close())
+		b, idx = open(base+"/main", 2, 3, &seq)
+		bd2, del2 := open(base+"/del", 0, 3, &seqd)
+		idx.SetDeleteMergeSet(del2)
+		must(del2.LoadDeletedTSIDs())
+		all, err := idx.SearchSeriesByTableAndCond([]byte("m_0000"), nil, tsi.DefaultTR)
+		must(err)
+		fmt.Fprintf(os.Stderr, "DEBUG series listed after reopen=%d expected=%d (dropped %d)\n", len(all), n-len(dl), len(dl))
+		must(bd2.Close())
+		reop := idx.VerifC13Table().VerifC13PartItems()
+		cnt := func(x [][][]byte) (n int, set map[string]bool) {
+			set = map[string]bool{}
+			for _, p := range x {
+				for _, it := range p {
+					d := decode(it)
+					if len(d.ids) == 0 {
+						set[d.head] = true
+					}
+					for _, id := range d.ids {
+						set[fmt.Sprintf("%s|%d", d.head, id)] = true
+					}
+				}
+			}
+			return len(set), set
+		}
+		na, _ := cnt(after)
+		nl, _ := cnt(later)
+		nr, _ := cnt(reop)
+		nb, _ := cnt(before)
+		fmt.Fprintf(os.Stderr, "DEBUG pairs before=%d after=%d later=%d reopened=%d parts %d/%d/%d/%d\n", nb, na, nl, nr, len(before), len(after), len(later), len(reop))
+		must(b.Close())
+		os.RemoveAll(base)
+		return
+	}
 	must(b.Close())
 	must(bd.Close())
 	os.RemoveAll(base)
@@ -208,6 +264,13 @@ func main() {
 	var dj []int
 	for _, x := range delIDs {
 		dj = append(dj, iid(x))
+	}
+	if os.Getenv("C13ITEMS_DEBUG") != "" {
+		hn := map[int]string{}
+		for h, i := range heads {
+			hn[i] = fmt.Sprintf("%d:%q", h[0], h[1:min(len(h), 40)])
+		}
+		gen.Emit(map[string]any{"heads": hn})
 	}
 	gen.Emit(map[string]any{"purge_items": true, "cap": mergeset.VerifC13MaxInmemoryBlockSize, "series": n, "dropped_series": len(dl),
 		"deleted": dj, "parts": parts, "after": pairs, "items_before": nitems, "bytes_before": nbytes, "rows_with_several_ids": nrows,
